@@ -6,7 +6,7 @@
      Tractogram.extend(other) / `t += other`:  component.extend(other_component) for every component
    in turn (PerArraySequenceDict._extend_entry), i.e. a run of OExtendSeq steps. *)
 From Coq Require Import ZArith List Bool Arith Lia.
-From NV Require Import C15.Model C15.ListLemmas C15.Invariant C15.Steps C15.Steps2 C15.Lemmas.
+From NV Require Import C15.Model C15.ListLemmas C15.Invariant C15.Steps C15.Steps2 C15.Lemmas C15.Lemmas2 C15.Simulation.
 Import ListNotations.
 
 (* (component of self, bytes per row of the first element of other's component, component of other) *)
@@ -82,4 +82,74 @@ Proof.
         apply Hni. apply in_map_iff. exists ((i, b), j). auto.
     + intros q q' Hq Hq'. apply HS; right; auto.
     + exact Hp.
+Qed.
+
+(* ---------------------------------------------------------------- Tractogram.__getitem__(idx), idx not an int *)
+(* for every ArraySequence component c: pts = c[idx] (a view), then Tractogram(...) wraps it with
+   ArraySequence(pts) (the view constructor) and the intermediate object is dropped *)
+Definition tget_component (st : state) (c : nat) (ix : index) : state :=
+  let st1 := fst (step st (OGetIdx c ix)) in
+  let v := length (seqs st) in
+  let st2 := fst (step st1 (OView v default_bufbytes)) in
+  fst (step st2 (ODrop v)).
+
+(* the component of the sliced tractogram is object (length (seqs st) + 1); it shows exactly the
+   selected elements, lives on the component's buffer (a view: assignments through it reach the source
+   while they share the buffer), and no existing object changes *)
+Theorem tget_component_spec st c ix ps : reachable st -> is_live st c = true ->
+  positions (length (C st c)) ix = Ok ps ->
+  let st' := tget_component st c ix in
+  let w := S (length (seqs st)) in
+  reachable st' /\ C st' w = spec_pick (C st c) ps /\
+  sbuf (getseq st' w) = sbuf (getseq st c) /\ is_live st' w = true /\
+  (forall k, k < length (seqs st) -> getseq st' k = getseq st k /\ C st' k = C st k).
+Proof.
+  intros R L P. cbv zeta. unfold tget_component.
+  pose proof (reachable_wf st R) as W. pose proof (is_live_lt _ _ L) as Hc.
+  set (st1 := fst (step st (OGetIdx c ix))).
+  assert (R1 : reachable st1) by (apply reachable_step; auto).
+  pose proof (own_get_idx st c ix R L) as G. cbv zeta in G. rewrite P in G. fold st1 in G.
+  destruct G as (_ & C1 & K1).
+  set (v := length (seqs st)) in *.
+  assert (L1 : length (seqs st1) = S v).
+  { unfold st1. simpl. rewrite L. rewrite (C_length st c W Hc) in P. rewrite P. simpl. rewrite app_length. simpl. unfold v. lia. }
+  assert (Lv : is_live st1 v = true).
+  { unfold is_live. rewrite L1. assert (E : (v <? S v) = true) by (apply Nat.ltb_lt; lia). rewrite E. cbn [andb].
+    unfold st1. simpl. rewrite L. rewrite (C_length st c W Hc) in P. rewrite P. unfold new_view, getseq, add_seq. simpl.
+    unfold v. rewrite nth_app_new. reflexivity. }
+  set (st2 := fst (step st1 (OView v default_bufbytes))).
+  assert (R2 : reachable st2) by (apply reachable_step; auto).
+  destruct (own_view st1 v default_bufbytes R1 Lv) as (C2 & K2 & B2). fold st2 in C2, K2, B2. rewrite L1 in C2, B2.
+  assert (L2 : length (seqs st2) = S (S v)).
+  { unfold st2. simpl. rewrite Lv. simpl. rewrite app_length, L1. simpl. lia. }
+  assert (Lw2 : live (getseq st2 (S v)) = true).
+  { unfold st2. simpl. rewrite Lv. unfold new_view, getseq, add_seq. simpl. rewrite <- L1, nth_app_new. reflexivity. }
+  assert (Lv2 : is_live st2 v = true).
+  { unfold is_live. rewrite L2. assert (E : (v <? S (S v)) = true) by (apply Nat.ltb_lt; lia). rewrite E. cbn [andb].
+    destruct K2 as (_ & _ & K23 & _). rewrite K23 by lia. unfold is_live in Lv. apply andb_prop in Lv. apply Lv. }
+  (* the drop only clears a flag *)
+  set (st3 := fst (step st2 (ODrop v))).
+  assert (D : forall k, k <> v -> getseq st3 k = getseq st2 k).
+  { intros k Hk. unfold st3. simpl. rewrite Lv2. simpl. rewrite getseq_set_seq by (rewrite L2; lia).
+    apply Nat.eqb_neq in Hk. rewrite Hk. reflexivity. }
+  assert (H3 : heap st3 = heap st2) by (unfold st3; simpl; rewrite Lv2; reflexivity).
+  assert (DC : forall k, k <> v -> C st3 k = C st2 k).
+  { intros k Hk. unfold C, contents. rewrite D, H3 by auto. reflexivity. }
+  split; [apply reachable_step; auto|].
+  pose proof (reachable_wf st1 R1) as W1.
+  split; [rewrite DC by lia; rewrite C2; exact C1|].
+  split.
+  { rewrite D by lia. rewrite B2.
+    destruct K1 as (_ & _ & K13 & _).
+    unfold st1. simpl. rewrite L. rewrite (C_length st c W Hc) in P. rewrite P. unfold new_view, getseq, add_seq. simpl.
+    unfold v. rewrite nth_app_new. reflexivity. }
+  split.
+  { unfold is_live. assert (L3 : length (seqs st3) = S (S v)).
+    { unfold st3. simpl. rewrite Lv2. cbn [fst]. rewrite seqs_len_set_seq. exact L2. }
+    rewrite L3. assert (E : (S v <? S (S v)) = true) by (apply Nat.ltb_lt; lia). rewrite E. cbn [andb].
+    rewrite D by lia. exact Lw2. }
+  intros k Hk. fold v in Hk.
+  destruct (keeps_all st st1 W K1 k Hk) as (A1 & B1).
+  destruct (keeps_all st1 st2 W1 K2 k ltac:(lia)) as (A2 & B2').
+  split; [rewrite D by lia; congruence|rewrite DC by lia; congruence].
 Qed.
